@@ -695,3 +695,40 @@ B('C16', 'witness extension ignores upper bounds', 'prover/omega.py',
   "            if coeff > 0: #lower case", 'C16.O2', 'all-constraints-both-signs')
 N('C16', 'lcm with the division first', 'prover/omega.py',
   "    return a * b // gcd(a, b)", "    return a // gcd(a, b) * b")
+
+# ------------------------------------------------------------------------------------------- C20
+IPARSER2 = 'imperative/parser2.py'
+IEXPR = 'imperative/expr.py'
+ICOM = 'imperative/com.py'
+B('C20', 'multiplication open on both sides', IPARSER2,
+  '    ?times: times "*" uminus -> times_expr | uminus', '    ?times: times "*" times -> times_expr | uminus', 'C20.P1', 'production(times * times)')
+B('C20', 'unary minus takes a whole sum', IPARSER2,
+  '    ?uminus: "-" uminus -> uminus_expr | atom   // Unary minus: priority 80\n\n    ?times: times "*" uminus -> times_expr | uminus   // Multiplication: priority 70\n\n    ?expr: expr "+" times -> plus_expr      // Addition and subtraction: priority 65\n        | expr "-" times -> minus_expr\n        | times',
+  '    ?times: times "*" atom -> times_expr | atom   // Multiplication: priority 70\n\n    ?expr: expr "+" times -> plus_expr      // Addition and subtraction: priority 65\n        | expr "-" times -> minus_expr\n        | "-" expr -> uminus_expr\n        | times',
+  'C20.P1', 'production(- expr)')
+B('C20', 'printer priority of conjunction below disjunction', IEXPR,
+  '    "&": 35, "|": 30, "-->": 25, "<-->": 25,', '    "&": 30, "|": 35, "-->": 25, "<-->": 25,', 'C20.P2', 'order(&,|)')
+B('C20', 'right operand of equal priority not bracketed for subtraction', IEXPR,
+  "                arg1 = bracket(self.args[0], lambda q: q < p)\n                arg2 = bracket(self.args[1], lambda q: q <= p)",
+  "                arg1 = bracket(self.args[0], lambda q: q < p)\n                arg2 = bracket(self.args[1], lambda q: q < p)", 'C20.P2', 'equal-priority-operands(-)')
+B('C20', 'boolean connectives bracketed as if left associative', IEXPR,
+  "                arg1 = bracket(self.args[0], lambda q: q <= p)\n                arg2 = bracket(self.args[1], lambda q: q < p)",
+  "                arg1 = bracket(self.args[0], lambda q: q < p)\n                arg2 = bracket(self.args[1], lambda q: q <= p)", 'C20.P2', 'equal-priority-operands(-->)')
+B('C20', 'negation of a conjunction printed without brackets', IEXPR,
+  "        if len(self.args) == 1:\n            return 80 if self.op == '-' else 40", "        if len(self.args) == 1:\n            return 80 if self.op == '-' else 20", 'C20.P2', 'prefix(~)')
+B('C20', 'exit condition of a loop not listed', ICOM,
+  "                add_line(\"}\")\n                add_vc(cmd.post)", "                add_line(\"}\")", 'C20.P3', 'lists-post(While)')
+B('C20', 'sequence computes the first command against the postcondition', ICOM,
+  "            mid = self.c2.compute_wp(post)\n            pre = self.c1.compute_wp(mid)", "            mid = self.c2.compute_wp(post)\n            pre = self.c1.compute_wp(post)", 'C20.P3', 'Seq')
+B('C20', 'loop body computed against the postcondition instead of the invariant', ICOM,
+  "            self.c.compute_wp(self.inv)", "            self.c.compute_wp(post)", 'C20.P3', 'body-against-invariant')
+B('C20', 'exit condition without the negated test', ICOM,
+  "            self.post = [expr.conj(self.inv, expr.neg(self.b)), post]", "            self.post = [self.inv, post]", 'C20.P3', 'exit(I & ~b --> post)')
+B('C20', 'branches of a conditional swapped', ICOM,
+  "            self.pre.append(expr.ITE(self.b, pre_c1, pre_c2))", "            self.pre.append(expr.ITE(self.b, pre_c2, pre_c1))", 'C20.P3', 'Cond')
+B('C20', 'assignment substitutes the variable for the expression', ICOM,
+  "                self.pre.append(post.subst({self.v.name: self.e}))", "                self.pre.append(post)", 'C20.P3', 'Assign')
+N('C20', 'sequence with other local names', ICOM,
+  "            mid = self.c2.compute_wp(post)\n            pre = self.c1.compute_wp(mid)\n            self.pre.append(pre)", "            r = self.c2.compute_wp(post)\n            p = self.c1.compute_wp(r)\n            self.pre.append(p)")
+N('C20', 'priorities rescaled', IEXPR,
+  '    "*": 70, "+": 65, "-": 65,', '    "*": 72, "+": 66, "-": 66,')
